@@ -37,6 +37,7 @@ func TestVerifC02(t *testing.T) {
 	rng := vharness.Rng()
 	acc := vNewAccount(t)
 
+	sameDeviceMode := false
 	run := func(kindName string, w, n, nSenders int, gen func(senders int, n int) []c02op, count int) {
 		g := vGroup(t, rng.Intn(3), acc.store(t, w))
 		recv0 := acc.store(t, w)
@@ -44,10 +45,27 @@ func TestVerifC02(t *testing.T) {
 		if err != nil {
 			t.Fatal(err)
 		}
-		gpk, _ := g.GetPubKey()
 		var senders []*vSender
-		for i := 0; i < nSenders; i++ {
-			senders = append(senders, vNewSender(t, ctx, g, md.Member(), n, uint64(i+1)*100000))
+		if sameDeviceMode {
+			// ONE sender device (another device of the receiver's account) on several account/contact
+			// groups, where the device key is the same everywhere: each (device, group) stream is one
+			// "sender" of the model
+			sd := acc.store(t, w)
+			for i := 0; i < nSenders; i++ {
+				gi := vGroup(t, 1+i%2, recv0)
+				if i >= 2 {
+					gi = vGroup(t, 2, recv0)
+				}
+				mdi, err := recv0.GetOwnMemberDeviceForGroup(gi)
+				if err != nil {
+					t.Fatal(err)
+				}
+				senders = append(senders, vSenderWith(t, ctx, sd, gi, mdi.Member(), n, uint64(i+1)*100000))
+			}
+		} else {
+			for i := 0; i < nSenders; i++ {
+				senders = append(senders, vNewSender(t, ctx, g, md.Member(), n, uint64(i+1)*100000))
+			}
 		}
 		for it := 0; it < count; it++ {
 			ops := gen(nSenders, n)
@@ -70,7 +88,7 @@ func TestVerifC02(t *testing.T) {
 				s := senders[o.d]
 				switch o.kind {
 				case "reg":
-					err := recv.RegisterChainKey(ctx, g, s.dev, s.ann[o.n])
+					err := recv.RegisterChainKey(ctx, s.g, s.dev, s.ann[o.n])
 					if err != nil {
 						obs = append(obs, "OFail")
 						ok, note = false, fmt.Sprintf("RegisterChainKey failed: %v", err)
@@ -83,13 +101,18 @@ func TestVerifC02(t *testing.T) {
 						nontrivial = true
 					}
 				case "open":
-					env, hdr, err := recv.OpenEnvelopeHeaders(s.env[o.n], g)
+					env, hdr, err := recv.OpenEnvelopeHeaders(s.env[o.n], s.g)
 					if err != nil {
 						obs = append(obs, "OFail")
 						ok, note = false, fmt.Sprintf("OpenEnvelopeHeaders failed: %v", err)
 						continue
 					}
-					msg, err := recv.OpenEnvelopePayload(ctx, env, hdr, gpk, md.Device(), s.cids[o.n])
+					sgpk, _ := s.g.GetPubKey()
+					ownDev := md.Device()
+					if smd, err := recv.GetOwnMemberDeviceForGroup(s.g); err == nil {
+						ownDev = smd.Device()
+					}
+					msg, err := recv.OpenEnvelopePayload(ctx, env, hdr, sgpk, ownDev, s.cids[o.n])
 					st := &or[o.d]
 					want := st.reg && (st.opened[o.n] || (o.n > st.c && o.n <= st.c+w+len(st.opened)))
 					if err != nil {
@@ -113,7 +136,8 @@ func TestVerifC02(t *testing.T) {
 						st.opened[o.n] = true
 					}
 				case "known":
-					k := recv.IsChainKeyKnownForDevice(ctx, gpk, s.dev)
+					sgpk, _ := s.g.GetPubKey()
+					k := recv.IsChainKeyKnownForDevice(ctx, sgpk, s.dev)
 					obs = append(obs, "OBool "+vharness.Bool(k))
 					if k != or[o.d].reg {
 						ok, note = false, "IsChainKeyKnownForDevice disagrees with registration history"
@@ -173,6 +197,13 @@ func TestVerifC02(t *testing.T) {
 		run("small-window-random", w, 7, 1+rng.Intn(2), randomGen(14, 2), 60*q)
 		run("small-window-perm", w, 6, 1+rng.Intn(2), permGen(3), 25*q)
 	}
+	// the same sender device on several account/contact groups of the receiver's account
+	sameDeviceMode = true
+	for w := 1; w <= 3; w++ {
+		run("one-device-several-groups-random", w, 6, 2+rng.Intn(2), randomGen(16, 2), 30*q)
+		run("one-device-several-groups-perm", w, 5, 2, permGen(2), 10*q)
+	}
+	sameDeviceMode = false
 	run("default-window-random", 100, 300, 2, randomGen(120, 1), 6*q)
 	run("default-window-perm", 100, 260, 1, permGen(2), 3*q)
 
